@@ -140,6 +140,8 @@ class C13(Prop):
             "many-marker cases (128, 129, 200, 300, 1000 markers, 2-4 inbred / highly homozygous or haploid lines "
             "sharing >= 128 identical loci, all four estimators, estimated and supplied frequencies); "
             "plus arbitrary (asymmetric, diagonally dominant or indefinite) square matrices for the summaries; "
+            "grouped sources (`group_taxa()` before `from_gmat`: the sorted order and the four metadata arrays are "
+            "read back from the source and must reappear on the result); "
             "'summaries after in-place edit' sequences on ONE object (summaries, then element assignment through "
             "`.mat`, diagonal increment, or an `apply_jitter` that fires, then all summaries again, Spec on every "
             "round); and a stream of inputs that must be rejected.  Non-trivial = cmat case with >= 2 distinct taxa, >= 2 "
@@ -156,9 +158,11 @@ class C13(Prop):
         "of the exact rational value",
         "inverse-based summaries are compared only where n·max|A|·max|A⁻¹| <= 1e4 (well conditioned)",
         "taxa selections have distinct in-range indices (permutations and subsets)",
-        "apply_jitter is not modelled as a function: the jittered matrix is read back from the object and the "
-        "summaries recomputed afterwards must be those of that matrix (only the diagonal may have moved, by an "
-        "amount inside the requested range)",
+        "apply_jitter is modelled with its oracle inputs recorded on the run: the uniform vectors (a RandomState "
+        "clone seeded like the global stream) and the verdicts of is_positive_semidefinite (instance-level "
+        "recorder); model matrix and flag are compared with the object (correspondence; the property text does "
+        "not speak about jitter, so the Spec only demands that the summaries recomputed afterwards are those of "
+        "the matrix now held)",
     ]
 
     # ------------------------------------------------------------------ generation
@@ -183,7 +187,40 @@ class C13(Prop):
              "taxa_grp": None, "p": None, "w": None, "sel": None,
              "edits": [{"op": "jitter", "tol": "1/1000000", "lo": "1/2", "hi": 1}]},
         ]
-        return self._fixed_corpus() + [self._big_case()] + many + edits
+        grouped = [
+            # unsorted groups and names: group_taxa() reorders the taxa; metadata name [1,2] stix [0,2] spix [2,3]
+            {"kind": "cmat", "method": "mol", "via": "class", "ploidy": 2, "phased": False, "n": 3, "m": 2,
+             "geno": [[0, 0], [1, 2], [2, 1]], "taxa": ["c", "b", "a"], "taxa_grp": [2, 1, 1], "p": None,
+             "w": None, "sel": [2, 0], "grouped": True},
+            {"kind": "cmat", "method": "vr", "via": "factory", "ploidy": 2, "phased": True, "n": 4, "m": 3,
+             "geno": [[[0, 1, 1], [1, 1, 0], [0, 0, 0], [1, 0, 1]], [[1, 1, 0], [0, 1, 0], [0, 1, 0], [1, 1, 1]]],
+             "taxa": ["t3", "t1", "t0", "t2"], "taxa_grp": [5, 3, 5, 3], "p": None, "w": None, "sel": None,
+             "grouped": True},
+            {"kind": "cmat", "method": "gw", "via": "class", "ploidy": 1, "phased": False, "n": 3, "m": 2,
+             "geno": [[1, 0], [0, 0], [1, 1]], "taxa": None, "taxa_grp": [9, 9, 4], "p": "1/2", "w": [1, 2],
+             "sel": [1, 2, 0], "grouped": True},
+            {"kind": "cmat", "method": "yang", "via": "class", "ploidy": 2, "phased": False, "n": 3, "m": 2,
+             "geno": [[1, 2], [2, 1], [0, 0]], "taxa": ["x", "y", "z"], "taxa_grp": [1, 0, 1], "p": ["1/2", "1/4"],
+             "w": None, "sel": None, "grouped": True},
+        ]
+        edits += [
+            {"kind": "edit", "seed": 3, "src": "gmat", "method": "vr", "via": "class", "ploidy": 2,
+             "phased": False, "n": 2, "m": 2, "geno": [[1, 2], [2, 0]], "taxa": None, "taxa_grp": None, "p": None,
+             "w": None, "sel": None,
+             "edits": [{"op": "jitter", "tol": "3/4", "lo": "1/2", "hi": 1, "nattempt": 20}]},
+            {"kind": "edit", "seed": 4, "src": "gmat", "method": "yang", "via": "factory", "ploidy": 2,
+             "phased": False, "n": 3, "m": 2, "geno": [[1, 2], [2, 1], [0, 0]], "taxa": None, "taxa_grp": None,
+             "p": None, "w": None, "sel": None,
+             "edits": [{"op": "jitter", "tol": 100, "lo": "1/8", "hi": "1/4", "nattempt": 3},
+                       {"op": "add_diag", "v": 1}]},
+            {"kind": "edit", "seed": 5, "src": "mat", "cls": "gw", "mat": [[2, 1], [1, 2]], "taxa": None,
+             "edits": [{"op": "jitter", "tol": "1/1000000", "lo": "1/2", "hi": 1, "nattempt": 100},
+                       {"op": "jitter", "tol": 3, "lo": "1/2", "hi": 1, "nattempt": 20}]},
+            # tiny magnitudes (2^-1000): halving stays exact far below 1 (no underflow down to 2^-1021)
+            {"kind": "summ", "cls": "mol", "mat": [[f"3/{2 ** 1000}", f"1/{2 ** 1000}"],
+                                                   [f"1/{2 ** 1000}", f"5/{2 ** 1000}"]], "taxa": None},
+        ]
+        return self._fixed_corpus() + [self._big_case()] + many + grouped + edits
 
     @staticmethod
     def _big_case():
@@ -350,9 +387,11 @@ class C13(Prop):
             if rng.random() < 0.5 and n > 1:
                 idx = idx[:rng.randint(1, n - 1)]
             sel = idx
+        # a grouped source (`group_taxa()` sorts by group, then name, and fills the four metadata arrays)
+        grouped = grp is not None and rng.random() < 0.45
         return {"kind": "cmat", "method": method, "via": rng.choice(["class", "factory"]), "ploidy": ploidy,
                 "phased": phased, "n": n, "m": m, "geno": geno, "taxa": taxa, "taxa_grp": grp,
-                "p": canon.enc(pk), "w": canon.enc(wk), "sel": sel}
+                "p": canon.enc(pk), "w": canon.enc(wk), "sel": sel, "grouped": grouped}
 
     def _bigm_case(self, rng, method=None, m=None, ploidy=None):
         """many markers, few taxa, inbred / highly homozygous lines (and haploid matches): pairs of taxa share
@@ -418,6 +457,15 @@ class C13(Prop):
                 "taxa": [f"L{i}" for i in range(n)] if rng.random() < 0.7 else None,
                 "taxa_grp": None, "p": canon.enc(pk), "w": canon.enc(wk), "sel": sel}
 
+    @staticmethod
+    def _jitter_edit(rng):
+        r = rng.random()
+        if r < 0.45:      # fires on a singular matrix and succeeds at once (well conditioned afterwards)
+            return {"op": "jitter", "tol": "1/1000000", "lo": "1/2", "hi": 1, "nattempt": 100}
+        if r < 0.75:      # needs every draw >= 3/4: usually several attempts
+            return {"op": "jitter", "tol": "3/4", "lo": "1/2", "hi": 1, "nattempt": 20}
+        return {"op": "jitter", "tol": 100, "lo": "1/8", "hi": "1/4", "nattempt": 3}   # cannot succeed: restore
+
     def _edit_case(self, rng):
         """summaries, an in-place edit of the SAME matrix object through the public surface, summaries again"""
         n = rng.choice([2, 2, 3, 3, 4, 5])
@@ -444,6 +492,8 @@ class C13(Prop):
                                   "v": canon.enc(A[i][i] + Fraction(rng.randint(1, 12), 2)), "mirror": False})
                 else:
                     edits.append({"op": "add_diag", "v": canon.enc(rng.choice([Fraction(1, 2), 1, 2, 5]))})
+            if sym and rng.random() < 0.3:
+                edits.insert(rng.randint(0, len(edits)), self._jitter_edit(rng))
         else:
             g = self._cmat_case(rng)
             while g["n"] < 2 or g["n"] > 6 or g["m"] > 16:
@@ -453,7 +503,7 @@ class C13(Prop):
             case["src"] = "gmat"
             # a jitter that fires on the singular matrices of the re-estimating estimators (tolerance and range
             # are public arguments); large enough to make the result well conditioned
-            edits.append({"op": "jitter", "tol": "1/1000000", "lo": "1/2", "hi": 1})
+            edits.append(self._jitter_edit(rng))
             if rng.random() < 0.5:
                 edits.append({"op": "add_diag", "v": canon.enc(rng.choice([Fraction(1, 2), 1, 3]))})
             if rng.random() < 0.4:
@@ -568,6 +618,26 @@ class C13(Prop):
             kw["afreq"] = _arg(case["p"])
         return kw
 
+    def _source(self, M, case):
+        """the genotype object handed to `from_gmat` and, for a grouped source, what it holds after
+        `group_taxa()` (order of taxa, labels, metadata)"""
+        gm = self._gmat(M, case)
+        if not case.get("grouped") or case.get("taxa_grp") is None:
+            return gm, None
+        gm.group_taxa()
+        eff = {"geno": canon.enc(gm.mat), "taxa": None if gm.taxa is None else [str(t) for t in gm.taxa],
+               "taxa_grp": [int(t) for t in gm.taxa_grp], "meta": self._meta(gm)}
+        return gm, eff
+
+    @staticmethod
+    def _meta(o):
+        parts = {"name": o.taxa_grp_name, "stix": o.taxa_grp_stix, "spix": o.taxa_grp_spix, "len": o.taxa_grp_len}
+        if all(v is None for v in parts.values()):
+            return None
+        if any(v is None for v in parts.values()):
+            return "partial"
+        return {k: [int(x) for x in v] for k, v in parts.items()}
+
     def _build(self, M, case, gm):
         kw = self._kwargs(case)
         if case["via"] == "factory":
@@ -599,10 +669,11 @@ class C13(Prop):
             if not numpy.isfinite(c.mat).all():
                 return {"err": "nonfinite"}
             return {"err": None, "mat": canon.enc(c.mat)}
-        gm = self._gmat(M, case)
+        gm, eff = self._source(M, case)
         c = self._build(M, case, gm)
         isinst = isinstance(c, M["cls"][case["method"]]) and isinstance(c, M["base"])
-        out = {"mat": canon.enc(c.mat), "class_ok": bool(isinst), **self._labels(c)}
+        out = {"mat": canon.enc(c.mat), "class_ok": bool(isinst), **self._labels(c), "eff": eff,
+               "meta": self._meta(c)}
         n = case["n"]
         acc = []
         for i in range(n):
@@ -627,7 +698,7 @@ class C13(Prop):
             taxa = None if case["taxa"] is None else numpy.array(case["taxa"], dtype=object)
             c = M["cls"][case["cls"]](mat=mat, taxa=taxa)
         else:
-            c = self._build(M, case, self._gmat(M, case))
+            c = self._build(M, case, self._source(M, case)[0])
         n = c.mat.shape[0]
 
         def snap():
@@ -648,9 +719,28 @@ class C13(Prop):
                 c.mat[numpy.diag_indices(n)] += _fl(e["v"])
                 info.append(None)
             elif e["op"] == "jitter":
-                numpy.random.seed((case["seed"] + k) % (2 ** 32))
-                info.append(bool(c.apply_jitter(eigvaltol=_fl(e["tol"]), minjitter=_fl(e["lo"]),
-                                                maxjitter=_fl(e["hi"]))))
+                seed = (case["seed"] + k) % (2 ** 32)
+                natt = int(e.get("nattempt", 100))
+                # oracle inputs of the model: the uniform vectors `apply_jitter` will draw from the global
+                # stream (same MT19937 state as a RandomState seeded alike) and the verdicts of the
+                # eigen-solver test, recorded by an instance-level wrapper around the real method
+                clone = numpy.random.RandomState(seed)
+                draws = [clone.uniform(_fl(e["lo"]), _fl(e["hi"]), n) for _ in range(min(natt, 25))]
+                answers = []
+
+                def recorder(eigvaltol=2e-14, _c=c, _a=answers):
+                    r = bool(type(_c).is_positive_semidefinite(_c, eigvaltol))
+                    _a.append(r)
+                    return r
+                c.is_positive_semidefinite = recorder
+                numpy.random.seed(seed)
+                try:
+                    ok = bool(c.apply_jitter(eigvaltol=_fl(e["tol"]), minjitter=_fl(e["lo"]),
+                                             maxjitter=_fl(e["hi"]), nattempt=natt))
+                finally:
+                    del c.is_positive_semidefinite
+                info.append({"ok": ok, "answers": list(answers), "draws": canon.enc(draws[:max(0, len(answers) - 1)])
+                             if len(answers) - 1 <= len(draws) else None})
             else:
                 raise ValueError(e["op"])
             steps.append(snap())             # the matrix is read back from the object: the model takes it as is
@@ -658,8 +748,11 @@ class C13(Prop):
 
     # ------------------------------------------------------------------ model requests
     @staticmethod
-    def _base_req(case):
-        return {k: case[k] for k in ("method", "ploidy", "phased", "n", "m", "geno", "p", "w")}
+    def _base_req(case, obs=None):
+        b = {k: case[k] for k in ("method", "ploidy", "phased", "n", "m", "geno", "p", "w")}
+        if obs is not None and isinstance(obs, dict) and obs.get("eff") is not None:
+            b["geno"] = obs["eff"]["geno"]      # a grouped source was sorted by group_taxa(): use what it holds
+        return b
 
     def requests(self, case, obs):
         k = case["kind"]
@@ -676,14 +769,24 @@ class C13(Prop):
                     reqs.append({"op": "c13.summ", "mat": st["mat"]})
                     reqs.append({"op": "c13.spec_summ", "mat": st["mat"], "co": st["co"], "kin": st["kin"],
                                  "symmetric": st["symmetric"]})
+            if all(_finite(st) for st in obs["steps"]):
+                for t, e in enumerate(case["edits"]):
+                    inf = obs["info"][t]
+                    if e["op"] == "jitter" and inf["draws"] is not None:
+                        reqs.append({"op": "c13.jitter", "mat": obs["steps"][t]["mat"], "draws": inf["draws"],
+                                     "answers": inf["answers"]})
             return reqs
-        base = self._base_req(case)
+        base = self._base_req(case, obs)
         if k == "reject":
             return [{"op": "c13.cmat", **base, "sel": None}]
         reqs = [{"op": "c13.cmat", **base, "sel": case.get("sel")}]
         if _finite(obs):
             o = {kk: obs[kk] for kk in ("mat", "co", "kin", "taxa", "taxa_grp", "acc")}
-            spec = {"op": "c13.spec_cmat", **base, "taxa": case["taxa"], "taxa_grp": case["taxa_grp"], "out": o}
+            src = obs["eff"] if obs.get("eff") is not None else {"taxa": case["taxa"], "taxa_grp": case["taxa_grp"],
+                                                                 "meta": None}
+            o["meta"] = None if obs["meta"] == "partial" else obs["meta"]
+            spec = {"op": "c13.spec_cmat", **base, "taxa": src["taxa"], "taxa_grp": src["taxa_grp"],
+                    "meta": src["meta"], "out": o}
             if case.get("sel") is not None:
                 spec["sel"] = case["sel"]
                 o["sel_a"] = obs["sel_a"]
@@ -752,6 +855,11 @@ class C13(Prop):
                 failed += [f"step{t}.{f}" for f in spec["failed"]]
             # the element edits themselves (numpy semantics): the matrix read back is the edited one
             changed = False
+            jpos, nxt = {}, 2 * len(steps)          # position of the c13.jitter answer of edit t
+            for t, e in enumerate(case["edits"]):
+                if e["op"] == "jitter" and obs["info"][t]["draws"] is not None:
+                    jpos[t] = nxt
+                    nxt += 1
             for t, e in enumerate(case["edits"]):
                 before, after = canon.dec(steps[t]["mat"]), canon.dec(steps[t + 1]["mat"])
                 want = [list(r) for r in before]
@@ -762,7 +870,13 @@ class C13(Prop):
                 elif e["op"] == "add_diag":
                     for i in range(len(want)):
                         want[i][i] = Fraction(float(want[i][i]) + _fl(e["v"]))
-                else:                                   # jitter: only the diagonal may move, upwards
+                else:                                   # jitter: the model with the recorded oracle inputs
+                    inf = obs["info"][t]
+                    if inf["draws"] is not None:
+                        mj = answers[jpos[t]]["ok"]
+                        if mj["ok"] != inf["ok"] or not _close(mj["mat"], steps[t + 1]["mat"],
+                                                                  _scale(mj["mat"]), rel=1e-12):
+                            bad.append(f"edit{t}.jitter_model")
                     lo, hi = Fraction(e["lo"]), Fraction(e["hi"])
                     for i in range(len(want)):
                         d = after[i][i] - before[i][i]
@@ -774,7 +888,8 @@ class C13(Prop):
             if not obs["same_array"]:
                 bad.append("matrix object replaced")
             return {"corr": not bad, "spec": not failed, "nontrivial": changed and len(steps[0]["mat"]) >= 2,
-                    "detail": f"edit[{case['src']}] corr_mismatch={bad} spec_failed={failed} jitter={obs['info']}"}
+                    "detail": f"edit[{case['src']}] corr_mismatch={bad} spec_failed={failed} jitter="
+                              f"{[None if i is None else (i['ok'], i['answers']) for i in obs['info']]}"}
         if k == "reject":
             model = answers[0]["ok"]
             mtag = _MODEL_TAG.get(model.get("err"), model.get("err"))
@@ -803,7 +918,7 @@ class C13(Prop):
                 yf = answers[3]["ok"]
                 if "err" in yf or not _finite(yf["mat"]) or not _close(yf["mat"], obs["mat"], sc):
                     bad.append("yang_as_written_on_Float")
-        spec = bool(spec1["ok"]) and bool(spec2["ok"]) and obs["class_ok"]
+        spec = bool(spec1["ok"]) and bool(spec2["ok"]) and obs["class_ok"] and obs["meta"] != "partial"
         X = case["geno"] if not case["phased"] else \
             [[sum(case["geno"][ph][i][kk] for ph in range(case["ploidy"])) for kk in range(case["m"])]
              for i in range(case["n"])]
@@ -1108,8 +1223,57 @@ class C13(Prop):
             out = cache[key]
             return out * 0.5 if format.lower() == "kinship" else out
 
+        def with_meta(cls0, tweak):
+            orig = cls0.__dict__["from_gmat"].__func__
+
+            def f(cls, gmat, *a, **kw):
+                out = orig(cls, gmat, *a, **kw)
+                tweak(out)
+                return out
+            return classmethod(f)
+
+        def drop_meta(out):
+            out.taxa_grp_name = None
+            out.taxa_grp_stix = None
+            out.taxa_grp_spix = None
+            out.taxa_grp_len = None
+
+        def spix_is_stix(out):
+            if out.taxa_grp_stix is not None:
+                out.taxa_grp_spix = out.taxa_grp_stix.copy()
+
+        def jitter_mut(kind):
+            def f(self, eigvaltol=2e-14, minjitter=1e-10, maxjitter=1e-6, nattempt=100):
+                diagix = numpy.diag_indices_from(self._mat)
+                old = self._mat[diagix].copy()
+                counter = 0
+                bad = not self.is_positive_semidefinite(eigvaltol)
+                while bad and counter < nattempt:
+                    u = numpy.random.uniform(minjitter, maxjitter, len(old))
+                    if kind == "accumulate":
+                        self._mat[diagix] = self._mat[diagix] + u      # adds to the previous attempt
+                    elif kind == "offdiag":
+                        self._mat[diagix] = old + u
+                        if self._mat.shape[0] > 1:
+                            self._mat[0, 1] += u[0]                     # touches an off-diagonal entry
+                    else:
+                        self._mat[diagix] = old + u
+                    bad = not self.is_positive_semidefinite(eigvaltol)
+                    counter += 1
+                if bad:
+                    if kind != "no_restore":
+                        self._mat[diagix] = old
+                    return False
+                return True
+            return f
+
         cm = classmethod
         return [
+            ("vr_group_metadata_dropped", lambda: patch(VR, "from_gmat", with_meta(VR, drop_meta))),
+            ("mol_group_spix_is_stix", lambda: patch(Mol, "from_gmat", with_meta(Mol, spix_is_stix))),
+            ("jitter_not_restored_on_failure", lambda: patch(Base, "apply_jitter", jitter_mut("no_restore"))),
+            ("jitter_accumulates_attempts", lambda: patch(Base, "apply_jitter", jitter_mut("accumulate"))),
+            ("jitter_touches_offdiagonal", lambda: patch(Base, "apply_jitter", jitter_mut("offdiag"))),
             ("mol_int8_accumulation", lambda: patch(Mol, "from_gmat", cm(mol_int8))),
             ("gw_float32_product", lambda: patch(GW, "from_gmat", cm(gw_float32))),
             ("inverse_memoised_on_array_identity", memoised_inverse),
